@@ -1,6 +1,6 @@
-// vchild is the single child binary of the verification harness: one process
+// Package childmain implements the child process of the verification harness: one process
 // executes one workload in one build variant and one dispatch configuration.
-package main
+package childmain
 
 import (
 	"flag"
@@ -14,7 +14,8 @@ import (
 	"verifh/wl/reg"
 )
 
-func main() {
+// Main is the entry point shared by every per-property child binary.
+func Main() {
 	var (
 		wlName  = flag.String("workload", "", "workload name")
 		seed    = flag.Uint64("seed", 1, "VERIF_SEED")
